@@ -96,8 +96,10 @@ ItemsL(ls, touched) ==
     IN [k \in 1..Len(idx) |-> IF IsComment(ls[idx[k]]) THEN [c |-> ls[idx[k]]]
                               ELSE [sec |-> SecAt(ls, idx[k]), key |-> KeyOf(ls[idx[k]]), val |-> ValOf(ls[idx[k]])]]
 
-ValuesOK(text, sets, w) == \A sk \in KeysOf(Assigns(text)) \cup Touched(sets) :
-                              Lookup(Assigns(w), sk[1], sk[2]) = Expected(text, sets, sk[1], sk[2])
+\* (Assigns(text) \o sets is the history a reader must account for: later entries and later set() calls win)
+ValuesOK(text, sets, w) == LET at == Assigns(text) \o sets
+                               aw == Assigns(w)
+                           IN \A sk \in KeysOf(at) : Lookup(aw, sk[1], sk[2]) = Lookup(at, sk[1], sk[2])
 OrderOK(text, sets, w)  == ItemsL(Lines(w), Touched(sets)) = ItemsL(Lines(text), Touched(sets))
 IniOK(text, sets, w)    == ValuesOK(text, sets, w) /\ OrderOK(text, sets, w)
 
@@ -118,18 +120,21 @@ KVLine(key, val) == key \o <<61>> \o val
 RefWrite(text, sets) ==
     LET ls0 == Lines(text)
         ls == IF ls0[Len(ls0)] = <<>> THEN SubSeq(ls0, 1, Len(ls0) - 1) ELSE ls0          \* no phantom last line
+        at == AssignsL(ls) \o sets
         old == KeysOf(AssignsL(ls))
+        touched == Touched(sets)
         inplace == [i \in 1..Len(ls) |->
-                       IF IsKV(ls[i]) /\ <<SecAt(ls, i), KeyOf(ls[i])>> \in Touched(sets)
-                       THEN KVLine(KeyOf(ls[i]), Expected(text, sets, SecAt(ls, i), KeyOf(ls[i]))) ELSE ls[i]]
+                       IF IsKV(ls[i]) /\ <<SecAt(ls, i), KeyOf(ls[i])>> \in touched
+                       THEN KVLine(KeyOf(ls[i]), Lookup(at, SecAt(ls, i), KeyOf(ls[i]))) ELSE ls[i]]
         \* new keys, each once, in the order of their first set()
         firsts == SetToSortSeq({i \in 1..Len(sets) : <<sets[i].sec, sets[i].key>> \notin old
                                     /\ \A j \in 1..(i - 1) : <<sets[j].sec, sets[j].key>> # <<sets[i].sec, sets[i].key>>}, <)
-        newTop == Filter([k \in 1..Len(firsts) |-> sets[firsts[k]]], LAMBDA s : s.sec = Top)
-        newSec == Filter([k \in 1..Len(firsts) |-> sets[firsts[k]]], LAMBDA s : s.sec # Top)
-        front == [k \in 1..Len(newTop) |-> KVLine(newTop[k].key, Expected(text, sets, Top, newTop[k].key))]
+        news == [k \in 1..Len(firsts) |-> sets[firsts[k]]]
+        newTop == Filter(news, LAMBDA s : s.sec = Top)
+        newSec == Filter(news, LAMBDA s : s.sec # Top)
+        front == [k \in 1..Len(newTop) |-> KVLine(newTop[k].key, Lookup(at, Top, newTop[k].key))]
         back == Flat([k \in 1..Len(newSec) |-> << <<91>> \o newSec[k].sec \o <<93>>,
-                                                  KVLine(newSec[k].key, Expected(text, sets, newSec[k].sec, newSec[k].key)) >>])
+                                                  KVLine(newSec[k].key, Lookup(at, newSec[k].sec, newSec[k].key)) >>])
     IN IF sets = <<>> THEN text ELSE JoinLF(front \o inplace \o back)
 
 -------------------------------------------------------------------------------
@@ -222,10 +227,10 @@ Next == AddLine \/ AddSet \/ AddCell
 Spec == Init /\ [][Next]_vars
 
 (* properties of the specification itself *)
-\* parser, requirement and reference writer agree on every generated case
-RefWriterOK == Part = "ini" => IniOK(IText, isets, RefWrite(IText, isets))
-\* rewriting twice changes nothing more
-RefIdempotent == Part = "ini" => LET w == RefWrite(IText, isets) IN IniOK(w, <<>>, w)
+\* parser, requirement and reference writer agree on every generated case; rewriting the result changes nothing more
+RefWriterOK == Part = "ini" => LET t == IText
+                                   w == RefWrite(t, isets)
+                               IN IniOK(t, isets, w) /\ IniOK(w, <<>>, w)
 \* the reader inverts the writer on every generated table
 CsvRoundTrip == (Part = "csv" /\ RowsDone) => CsvOK(crows, ccols)
 \* the rendering of a number is recognized as a number, no generated string is
@@ -233,11 +238,11 @@ CellsOK == Part = "csv" => \A c \in Cells : (c.t = "n") = IsNumText(Norm(c).s)
 
 -------------------------------------------------------------------------------
 (* emission: one case per transition *)
-QueryKeys == KeysOf(Assigns(IText)) \cup Touched(isets)
 IniCase(text, sets) ==
     [k |-> "ini", text |-> text, sets |-> sets,
-     exp |-> LET ks == SetToSeq(KeysOf(Assigns(text)) \cup Touched(sets))
-             IN [i \in 1..Len(ks) |-> [sec |-> ks[i][1], key |-> ks[i][2], val |-> Expected(text, sets, ks[i][1], ks[i][2])]],
+     exp |-> LET at == Assigns(text) \o sets
+                 ks == SetToSeq(KeysOf(at))
+             IN [i \in 1..Len(ks) |-> [sec |-> ks[i][1], key |-> ks[i][2], val |-> Lookup(at, ks[i][1], ks[i][2])]],
      hz |-> IF LastLineHazard(text) THEN {"LastLineNoNewline"} ELSE {}]
 CsvCase(rows, n) ==
     [k |-> "csv", cols |-> n,
